@@ -37,6 +37,7 @@ static struct Ctl {
     std::vector<CEv> trace;
     int calls = 0, crash_at = -1;            // crash immediately before simulated call number crash_at (1-based); n+1 = after the last
     int wcalls = 0, fault_nth = -1, fault_err = 0; bool fault_short = false; bool fault_fired = false;
+    int rcalls = 0; bool fault_read = false;   // the planned fault counts read calls instead of write-type calls
     bool fault_sticky = false;                  // the condition stays (a full disk stays full): every write-type call from fault_nth on fails
     bool active = false;
     jmp_buf jb; int exit_code = 0;
@@ -52,6 +53,7 @@ static void tick(const char *kind, const std::string &s) {
 }
 static bool wfault(int &err, bool &shortw) {   // write-type call: does the planned fault hit it?
     int n = C.wcalls++;
+    if (C.fault_read) return false;
     if (n == C.fault_nth || (C.fault_sticky && C.fault_nth >= 0 && n > C.fault_nth)) { C.fault_fired = true; err = C.fault_err; shortw = C.fault_short; return true; }
     return false;
 }
@@ -90,6 +92,7 @@ static long s_write(int fd, const void *buf, size_t n) {
 static long s_read(int fd, void *buf, size_t n) {
     auto it = C.fds.find(fd); if (it == C.fds.end()) return -EBADF;
     tick("read", it->second.path);
+    { int k = C.rcalls++; if (C.fault_read && k == C.fault_nth) { C.fault_fired = true; C.trace.back().ret = -1; C.trace.back().err = C.fault_err; return -C.fault_err; } }   // a medium error in the middle of the file: not the end of the file
     auto ft = C.files.find(it->second.path); if (ft == C.files.end()) return 0;
     long avail = (long)ft->second.content.size() - it->second.off; if (avail <= 0) return 0;
     size_t take = n < (size_t)avail ? n : (size_t)avail;
@@ -218,11 +221,12 @@ void __wrap_exit(int code) { if (C.active) { C.exit_code = code; longjmp(C.jb, J
 }
 
 // ------------------------------------------------------------------ one simulated snoopyctl process
-struct ActOut { bool crashed = false; int exit_code = 0; std::string out, err; int calls = 0; std::vector<CEv> trace; bool fault_fired = false; int wcalls = 0; };
-static bool g_next_sticky = false;
+struct ActOut { bool crashed = false; int exit_code = 0; std::string out, err; int calls = 0; std::vector<CEv> trace; bool fault_fired = false; int wcalls = 0, rcalls = 0; };
+static bool g_next_sticky = false, g_next_read = false;
 static ActOut run_action(const std::string &action, int crash_at, int fault_nth, int fault_err, bool fault_short) {
     ActOut o;
     C.fault_sticky = g_next_sticky && fault_nth >= 0; g_next_sticky = false;
+    C.fault_read = g_next_read && fault_nth >= 0; g_next_read = false; C.rcalls = 0;
     C.fds.clear(); C.trace.clear(); C.calls = 0; C.crash_at = crash_at; C.wcalls = 0; C.fault_nth = fault_nth; C.fault_err = fault_err; C.fault_short = fault_short; C.fault_fired = false; C.exit_code = 0;
     char *ob = nullptr, *eb = nullptr; size_t on = 0, en = 0;
     FILE *so = stdout, *se = stderr;
@@ -241,7 +245,7 @@ static ActOut run_action(const std::string &action, int crash_at, int fault_nth,
         if (setjmp(C.jb) == 0) { std::map<FILE *, int> open_now = g_stream_fd; for (auto &kv : open_now) fflush(kv.first); }
         else o.crashed = true;
     }
-    C.active = false; C.crash_at = -1; C.fault_nth = -1;
+    C.active = false; C.crash_at = -1; C.fault_nth = -1; C.fault_read = false;
     { std::map<FILE *, int> open_now = g_stream_fd; C.fds.clear(); for (auto &kv : open_now) { __fpurge(kv.first); fclose(kv.first); } }   // the process is gone
     stdout = so; stderr = se;
     fclose(mo); fclose(me);
@@ -249,7 +253,7 @@ static ActOut run_action(const std::string &action, int crash_at, int fault_nth,
     // stdio streams abandoned by exit()/crash: their buffered bytes never reached the (simulated) kernel
     g_stream_fd.clear();
     C.crash_at = -1;
-    o.exit_code = C.exit_code; o.calls = C.calls; o.trace = C.trace; o.fault_fired = C.fault_fired; o.wcalls = C.wcalls;
+    o.exit_code = C.exit_code; o.calls = C.calls; o.trace = C.trace; o.fault_fired = C.fault_fired; o.wcalls = C.wcalls; o.rcalls = C.rcalls;
     return o;
 }
 
@@ -300,17 +304,17 @@ static std::vector<std::string> tokens_of(const std::string &line) {   // loader
 // ------------------------------------------------------------------ plans
 struct CtlPlan {
     std::string property; uint64_t seed = 0; bool exists = true; std::string initial; std::vector<std::string> ops;
-    int crash_at = -1; int fault_nth = -1, fault_err = 0; bool fault_short = false, fault_sticky = false; J extra = J::obj();
+    int crash_at = -1; int fault_nth = -1, fault_err = 0; bool fault_short = false, fault_sticky = false, fault_read = false; J extra = J::obj();
     J to_json() const {
         J j = J::obj(); j.set("property", property); j.set("seed", (unsigned long long)seed); j.set("engine", "ctl"); j.set("variant", "ctl");
         if (exists) j.set("initial", initial); else j.set("initial", J());
         j.set("plan", jstrs(ops)); j.set("crash_at", crash_at);
-        J f = J::obj(); f.set("nth", fault_nth); f.set("err", fault_err); f.set("short", fault_short); if (fault_sticky) f.set("sticky", true); j.set("fault", f); j.set("extra", extra);
+        J f = J::obj(); f.set("nth", fault_nth); f.set("err", fault_err); f.set("short", fault_short); if (fault_sticky) f.set("sticky", true); if (fault_read) f.set("read", true); j.set("fault", f); j.set("extra", extra);
         return j;
     }
     void from_json(const J &j) {
         property = j.gets("property"); seed = (uint64_t)j.geti("seed"); const J *i = j.find("initial"); exists = i && !i->is_null(); initial = exists ? i->s : "";
-        ops = jstrs(j.at("plan")); crash_at = (int)j.geti("crash_at", -1); const J &f = j.at("fault"); fault_nth = (int)f.geti("nth", -1); fault_err = (int)f.geti("err"); fault_short = f.getb("short"); fault_sticky = f.getb("sticky");
+        ops = jstrs(j.at("plan")); crash_at = (int)j.geti("crash_at", -1); const J &f = j.at("fault"); fault_nth = (int)f.geti("nth", -1); fault_err = (int)f.geti("err"); fault_short = f.getb("short"); fault_sticky = f.getb("sticky"); fault_read = f.getb("read");
         extra = j.has("extra") ? j.at("extra") : J::obj();
     }
 };
@@ -331,6 +335,7 @@ static std::string rand_file(Rng &r) {
     static const char *more[] = {"/lib/x86_64-linux-gnu/libfoo.so.1", "#", "# plain comment", "  ", "\t", LIBPATH "  ", LIBPATH "\t# c", LIBPATH ".1", "/x" LIBPATH, LIBPATH "x", " " LIBPATH, "/lib/foreign.so # libsnoopy.so is great",
         "/lib/b.so " LIBPATH, "/lib/a.so:/lib/b.so", "/usr/lib/libsnoopy.so # other", "libfakeroot.so", LIBPATH "#nospace", "/lib/d.so\t/lib/e.so", "#" LIBPATH,
         "libsnoopy.so", "libsnoopy.so # bare soname, found through the library path", "libsnoopy.so.2",   // entries may be bare sonames
+        "/opt/vendor%20libs/libfoo.so", "# 80% of %d users, 100%% %s", "/lib/%n%s%s%s.so",   // the file is data, never a format
         "/simroot/lib/libsnoopy-so", "/simroot/lib/libsnoopy_so # helper", "/simroot/lib/libsnoopyXso",   // the path with another character where its dot is
         LIBPATH LIBPATH, LIBPATH LIBPATH " # twice, back to back", LIBPATH " \xc3\xa9toile.so", LIBPATH "\t\xe9.so /lib/z.so", "\xc3\xa9.so " LIBPATH, LIBPATH " \x0b/lib/v.so"};   // the path glued to itself; neighbours that start with bytes >= 0x80 or odd blanks
     std::string s; int n = (int)r.range(0, 8);
@@ -339,7 +344,7 @@ static std::string rand_file(Rng &r) {
     auto big = [&]() { int k = (int)r.range(200, 700); for (int j = 0; j < k; j++) s += (j % 7 == 3 ? "# vendor entry " : "/opt/vendor/lib/libhook-") + std::to_string(j) + (j % 7 == 3 ? "" : ".so") + "\n"; };
     for (int i = 0; i < n; i++) {
         if (i == big_at) big();
-        std::string l = r.chance(1, 2) ? ALPHA[r.below(9)] : more[r.below(31)];
+        std::string l = r.chance(1, 2) ? ALPHA[r.below(9)] : more[r.below(34)];
         if (r.chance(1, 25)) l = std::string(LIBPATH) + (r.chance(1, 2) ? " # " : "\t#") + std::string((size_t)r.range(3900, 9000), 'c');   // an entry with a very long trailing comment
         if (r.chance(1, 12)) l += "\r";
         s += l; if (i + 1 < n || r.chance(4, 5)) s += "\n";
@@ -392,6 +397,9 @@ static CtlPlan gen_plan(const std::string &prop, uint64_t seed, const std::strin
         // the condition persists: from write-type call j on, every write-type call fails (a full disk stays full, a dead device stays dead)
         if (k < w * 3) { p.fault_nth = k / 3; p.fault_err = errs[k % 3]; p.fault_sticky = true; p.extra.set("mode", "sticky-fault"); return p; }
         k -= w * 3;
+        // a read of the existing file fails (EIO in the middle of the file is not its end): nothing may be built from the part that was read
+        if (k < c.rcalls) { p.fault_nth = k; p.fault_err = EIO; p.fault_read = true; p.extra.set("mode", "read-fault"); return p; }
+        k -= c.rcalls;
         // one failing write-type call and then a kill: error paths are code too, and they are killed before each of their calls
         int span = n + 12;
         if (k < w * span) { p.fault_nth = k / span; p.fault_err = ENOSPC; p.crash_at = k % span + 1; p.extra.set("mode", "fault-then-crash"); return p; }
@@ -485,7 +493,7 @@ static RunRes run_plan(const CtlPlan &p) {
     for (size_t i = 0; i < p.ops.size(); i++) {
         const std::string &op = p.ops[i];
         bool last = i + 1 == p.ops.size();
-        g_next_sticky = last && p.fault_sticky;
+        g_next_sticky = last && p.fault_sticky; g_next_read = last && p.fault_read;
         ActOut o = run_action(op, last ? p.crash_at : -1, last ? p.fault_nth : -1, p.fault_err, p.fault_short);
         bool ex1 = C.files.count(PRELOAD) != 0; std::string now = ex1 ? C.files[PRELOAD].content : "";
         for (auto &e : o.trace) h = fnv(e.k + "|" + e.s + "|" + std::to_string(e.ret) + "|" + std::to_string(e.err) + ";", h);
@@ -514,12 +522,13 @@ static RunRes run_plan(const CtlPlan &p) {
             R.sig = p.ops[0] + "|" + std::to_string(fnv(orig) % 9973) + "|" + p.extra.gets("mode") + "|" + std::to_string(p.crash_at) + "|" + std::to_string(p.fault_nth) + ":" + std::to_string(p.fault_err) + (p.fault_short ? "s" : "") + (p.fault_sticky ? "*" : "");
             R.nontrivial = o.crashed || o.fault_fired || p.extra.gets("mode") == "census";
             if (o.crashed) R.probes.set("p_crash_fired", true);
-            if (o.fault_fired) R.probes.set(p.fault_short ? "p_short_write" : p.fault_err == ENOSPC ? "p_enospc" : "p_write_error", true);
+            if (o.fault_fired && !p.fault_read) R.probes.set(p.fault_short ? "p_short_write" : p.fault_err == ENOSPC ? "p_enospc" : "p_write_error", true);
             if (o.fault_fired && p.fault_sticky) R.probes.set("p_sticky_fault", true);
+            if (o.fault_fired && p.fault_read) R.probes.set("p_read_fault", true);
             if (o.fault_fired && o.crashed) R.probes.set("p_fault_then_crash", true);
             if (p.extra.gets("mode") == "census") { R.probes.set("p_census", true); R.probes.set("census_calls", p.extra.geti("census_calls")); }
             if (!is_old && !ok_new) {
-                std::string what = (o.crashed && o.fault_fired) ? "write-type call #" + std::to_string(p.fault_nth) + " failing with errno " + std::to_string(p.fault_err) + ", then killed before simulated call #" + std::to_string(p.crash_at) : o.crashed ? "killed before simulated call #" + std::to_string(p.crash_at) + " of " + std::to_string(p.extra.geti("census_calls")) + " (" + p.extra.gets("census_trace") + ")" : o.fault_fired ? "write-type call #" + std::to_string(p.fault_nth) + (p.fault_short ? " short" : " failing with errno " + std::to_string(p.fault_err)) + (p.fault_sticky ? " and every later one too" : "") : "no fault";
+                std::string what = (o.crashed && o.fault_fired) ? "write-type call #" + std::to_string(p.fault_nth) + " failing with errno " + std::to_string(p.fault_err) + ", then killed before simulated call #" + std::to_string(p.crash_at) : o.crashed ? "killed before simulated call #" + std::to_string(p.crash_at) + " of " + std::to_string(p.extra.geti("census_calls")) + " (" + p.extra.gets("census_trace") + ")" : (o.fault_fired && p.fault_read) ? "read call #" + std::to_string(p.fault_nth) + " on the existing file failing with errno " + std::to_string(p.fault_err) : o.fault_fired ? "write-type call #" + std::to_string(p.fault_nth) + (p.fault_short ? " short" : " failing with errno " + std::to_string(p.fault_err)) + (p.fault_sticky ? " and every later one too" : "") : "no fault";
                 std::string cls = !ex1 ? "file-missing" : now.empty() ? "file-empty" : (now.size() < cur0.size() && cur0.compare(0, now.size(), now) == 0) ? "file-truncated" : "file-mixed";
                 R.v = V(std::string(o.crashed ? "crash:" : "fault:") + cls, op + " on " + showf(ex0, cur0) + ", " + what + ": the preload file holds " + showf(ex1, now) + ", neither the previous nor the complete new content");
                 return R;
